@@ -196,21 +196,52 @@ def section_discipline(dirs):
 
 # ----------------------------------------------------------------------------------- harness side
 
+STANDALONE_TAIL = """
+# --- appended by vlib/core.py: every harness crate is a standalone package (own empty workspace),
+# so a half-written crate of another property can never break this build; the target dir is shared.
+[workspace]
+
+[profile.dev]
+opt-level = 1
+debug = 0
+overflow-checks = true
+
+[profile.release]
+opt-level = 2
+debug = 0
+overflow-checks = true
+"""
+
+
+def _standalone(cdir):
+    """normalise harness/<cdir>/Cargo.toml to a standalone package (idempotent)"""
+    path = os.path.join(cdir, "Cargo.toml")
+    s = open(path).read()
+    t = s.replace("version.workspace = true", 'version = "0.1.0"').replace("edition.workspace = true", 'edition = "2021"')
+    if "\n[workspace]" not in t:
+        t = t.rstrip("\n") + "\n" + STANDALONE_TAIL
+    if t != s:
+        with open(path, "w") as f:
+            f.write(t)
+
+
 def harness_build(crate, release=False, timeout=3000):
-    hdir = os.path.join(ROOT, "harness")
+    """crate 'nvh_c17' lives in harness/c17 (standalone package; shared target dir)."""
+    cdir = os.path.join(ROOT, "harness", crate.replace("nvh_", ""))
     with Lock("cargo"):
+        _standalone(cdir)
         src_lock = os.path.join(REPO, "Cargo.lock")
-        dst_lock = os.path.join(hdir, "Cargo.lock")
+        dst_lock = os.path.join(cdir, "Cargo.lock")
         if not os.path.exists(dst_lock):
             shutil.copyfile(src_lock, dst_lock)
         env = dict(ENV)
         env["CARGO_TARGET_DIR"] = TARGET
         env["RUSTFLAGS"] = "--cfg %s" % GUARD
-        cmd = ["cargo", "build", "--offline", "-q", "-p", crate] + (["--release"] if release else [])
-        rc, out, dt = sh(cmd, cwd=hdir, timeout=timeout, env=env)
+        cmd = ["cargo", "build", "--offline", "-q"] + (["--release"] if release else [])
+        rc, out, dt = sh(cmd, cwd=cdir, timeout=timeout, env=env)
         if rc != 0 and ("failed to select a version" in out or "lock file" in out or "needs to be updated" in out):
             shutil.copyfile(src_lock, dst_lock)
-            rc, out, dt = sh(cmd, cwd=hdir, timeout=timeout, env=env)
+            rc, out, dt = sh(cmd, cwd=cdir, timeout=timeout, env=env)
     return rc == 0, out, os.path.join(TARGET, "release" if release else "debug", crate)
 
 
